@@ -183,9 +183,6 @@ func c05R3(c *Ctx) {
 	if n == 0 {
 		c.R.Undecided(rule, "callback-calls", "-", "", "no call through ExecFunc/EndExecFunc found")
 	}
-	for _, s := range c.AllCalls(cfgx.Named("chain/app/evm.exeWithCPUSerialVeirfy")) {
-		c.R.Ob(rule, "serial-executor-caller:"+core.Short(fname(s.Fn)), false, c.Pos(s.Call), fname(s.Fn), "the serial executor does not verify signatures: routing blocks to it makes validity depend on the path taken (e.g. on the worker count)")
-	}
 	// uses of validateRoutineCount
 	for _, fn := range c.P.FuncsOfPkg("chain/app/evm") {
 		f := c.Fn(fn)
@@ -203,11 +200,12 @@ func c05R3(c *Ctx) {
 							okUse = false
 							continue
 						}
-						other := cfgx.Expr(bo.X)
+						otherV := bo.X
 						if bo.X == ssa.Value(u) {
-							other = cfgx.Expr(bo.Y)
+							otherV = bo.Y
 						}
-						if !(other == "1" || other == "16" || other == "phi((loop + 1)|0)") {
+						_, isConst := otherV.(*ssa.Const)
+						if !(isConst || cfgx.Expr(otherV) == "phi((loop + 1)|0)") {
 							okUse = false
 						}
 					}
